@@ -27,7 +27,8 @@ class GrammarFacts:
             g, _ = load_grammar(text, name, [], False)
             terms, rules, ignore = g.compile(["start"], set())
         except Exception as e:
-            raise AnchorMissing(f"grammar {name} does not load: {type(e).__name__}: {e}") from e
+            from .source import GrammarBroken
+            raise GrammarBroken(f"grammar {name} does not load: {type(e).__name__}: {str(e)[:200]}") from e
         self.grammar = g
         self.terminals = {t.name: t for t in terms}
         self.rules = rules
@@ -179,6 +180,50 @@ class GrammarFacts:
         if name not in self.terminals:
             raise AnchorMissing(f"grammar {self.name}: terminal {name} not found")
         return self.terminals[name].pattern.to_regexp()
+
+    def keywords(self, tree_name: str) -> set[str]:
+        """Literal texts of the filtered-out (punctuation / keyword) terminals in the productions that create a node
+        `tree_name` (through `_inline` rules as well).  A case-insensitive literal is rendered as `text/i`; a filtered
+        terminal that is not a single literal (e.g. _NEWLINE) is left out."""
+        out: set[str] = set()
+        seen: set[str] = set()
+
+        def rule(r):
+            for sym in r.expansion:
+                if sym.is_term:
+                    if getattr(sym, "filter_out", False) and sym.name in self.terminals:
+                        pat = self.terminals[sym.name].pattern
+                        if type(pat).__name__ == "PatternStr":
+                            out.add(pat.value + ("/i" if "i" in (pat.flags or ()) else ""))
+                elif sym.name.startswith("_") and sym.name not in seen:
+                    seen.add(sym.name)
+                    for r2 in self.by_origin.get(sym.name, []):
+                        rule(r2)
+                elif sym.name.startswith("__") :
+                    pass
+        prods = list(self.producers.get(tree_name, []))
+        # helper rules generated for EBNF groups/repetitions belong to the rule they were generated for
+        for r in prods:
+            rule(r)
+        for nm, rs in self.by_origin.items():
+            if nm.startswith(f"__{tree_name}_"):
+                for r in rs:
+                    rule(r)
+        return out
+
+    def terminal_words(self, name: str):
+        """Finite language of a terminal (set of strings), None when infinite; case-insensitive literals give `text/i`."""
+        from .rx import Rx
+        if name not in self.terminals:
+            raise AnchorMissing(f"grammar {self.name}: terminal {name} not found")
+        pat = self.terminals[name].pattern
+        if type(pat).__name__ == "PatternStr":
+            return {pat.value + ("/i" if "i" in (pat.flags or ()) else "")}
+        flags = 0
+        import re as _re
+        for f in (pat.flags or ()):
+            flags |= {"i": _re.I, "s": _re.S, "m": _re.M}.get(f, 0)
+        return Rx(pat.to_regexp(), flags).finite_words()
 
     def reachable_trees(self, root: str) -> set[str]:
         """Tree names that can occur strictly below a node named ``root``."""
